@@ -421,6 +421,7 @@ func C10(run *report.Run) {
 		mons = append(mons, m)
 		return m
 	}, stdOps)
+	swallowedFaultPass(run, "C10", "SeekIter", "CursorMin", "CursorMax", "CursorCeil", "CursorMinFwd", "CursorMaxBack", "CursorCeilFwd", "CursorCeilBack")
 	var ops, seqs int64
 	for _, m := range mons {
 		ops += m.cursorOps
